@@ -173,9 +173,292 @@ def run_path(ctx):
     ctx.correspond(exe, l2, ["path-dec-of-real-encoding"] * len(l2), label="amp-path-real-encoding", prop=prop, key_of=key_of, crosscheck=10)
 
 
+# ------------------------------------------------------------------ cache URL cases
+
+SMALL_DOMAIN_ALPHA = ["a", "-", ".", "\u00e9", "\u26a1"]
+LABELS = ["a", "ab", "abc", "example", "com", "snowflake-broker", "torproject", "net", "en-us", "a-", "-a", "a--b", "xn--bcher-kva",
+          "xn--57hw060o", "xn--", "xn---", "xn--a", "XN--BCHER-KVA", "b\u00fccher", "\u26a1\U0001f60a", "\u00e9", "\u00e9a", "a\u00e9",
+          "\u00e9-c", "\u00e9a-b", "\U0001f60a-", "\u3002", "fa\u00df", "0", "0-", "1-2", "a" * 62, "a" * 63, "a" * 64, "\u00e9" * 30,
+          "\u00e9" * 60, "-", "--", "---", "A", "Ab"]
+
+
+def rand_domain(rng):
+    mode = rng.randrange(10)
+    if mode == 0:  # hyphens/dots around positions 3-4 after the replacements
+        return "".join(rng.choice(["a", "b", "-", ".", "\u00e9", "\U0001f60a", "\u0800"]) for _ in range(rng.randrange(0, 7))) + rng.choice(["", ".com", "-x.org"])
+    if mode == 1:  # long
+        n = rng.choice([50, 60, 61, 62, 63, 64, 65, 70, 120, 260])
+        lab = rng.choice(["a", "ab-", "\u00e9", "a."])
+        return (lab * n)[:n] + rng.choice(["", ".com"])
+    if mode == 2:
+        return rng.choice(["127.0.0.1", "[::1]", "[2001:db8::1]", "", "localhost", "a..b", ".a", "a.", "%C3%A9.com", "%ff.com", "%e2%82.com",
+                           "a%ffb-.com", "EXAMPLE.com", "\u00c9-c.com", "a\u0301-c.com"])
+    k = rng.choice([1, 2, 2, 3, 3, 4, 6])
+    return ".".join(rng.choice(LABELS) for _ in range(k))
+
+
+def rand_pub(rng, domain=None):
+    scheme = rng.choice(["https", "https", "https", "http", "http", "ftp", "HTTPS", "ws", ""])
+    user = rng.choice(["", "", "", "", "", "u@", "u:p@", "@", ":@"])
+    d = rand_domain(rng) if domain is None else domain
+    port = rng.choice(["", "", "", "", ":443", ":80", ":8080", ":", ":0443"])
+    path = rng.choice(["", "/", "/a/b", "/a/b/", "/a//b", "/a/./b", "/a/../b", "/../a", "/..", "/.", "/a%2Fb", "/a%2fb/%2E%2E/c", "/\u00e9", "/a b",
+                       "/amp/client/0AAAAAAAAAAAA/QUJD", "/amp/client/0AAAAAAAAAAAA/", "/x/amp/client/0-_-_-_-_-_-_/MS4wCnt9", "/a;b,c", "/a:b@c",
+                       "/%", "//a", "/a/", "/a/b/c/d/e/f/../../g", "/~a/$&+=", "/a'b(c)*!", "/[x]", "/a|b", "/a%7Cb", "/a%20b"])
+    q = rng.choice(["", "", "", "?", "?q=1", "?a=b&c=d", "?q=%zz", "?a/b"])
+    f = rng.choice(["", "", "", "#", "#frag", "#a%20b", "#a/b?c"])
+    s = (scheme + ":" if scheme else "") + "//" + user + d + port + path + q + f
+    if rng.random() < 0.03:
+        s = rng.choice(["http:opaque", "/just/a/path", "https:///nohost", "", "mailto:a@b", "https://a.com:x/", "http://[::1/"])
+    return s
+
+
+def rand_cache(rng):
+    if rng.random() < 0.5:
+        return rng.choice(["https://cdn.ampproject.org/", "https://cdn.ampproject.org", "https://amp.cache/", "https://amp.cache"])
+    scheme = rng.choice(["https", "http", "", "x-amp"])
+    user = rng.choice(["", "", "", "u@", "u:p@", "@"])
+    host = rng.choice(["cdn.ampproject.org", "amp.cache", "[::1]", "[2001:db8::2]", "127.0.0.1", "", "b\u00fccher.cache", "CACHE.example"])
+    port = rng.choice(["", "", ":443", ":8443", ":"])
+    path = rng.choice(["", "/", "/p", "/p/", "/p/q/", "/p//q", "/p/./q/", "/p/../q", "/..", "/%2e%2e/p", "/p%2Fq/", "/\u00e9/", "//", "/a b/"])
+    q = rng.choice(["", "", "", "", "?", "?x=1"])
+    f = rng.choice(["", "", "", "", "#", "#f"])
+    return (scheme + ":" if scheme else "") + "//" + user + host + port + path + q + f
+
+
+def rand_ct(rng):
+    return rng.choice(["c", "c", "c", "c", "c", "i", "r", "", "c/d", "..", ".", "\u00e9", "c c", "C", "%", "a%2fb", "s"])
+
+
+def sx(s):
+    return "x" + s.encode("utf-8", "surrogatepass").hex()
+
+
+def b32lower(b):
+    return base64.b32encode(b).decode().lower().rstrip("=")
+
+
+def spec_steps234(chars):
+    """AMP basic algorithm steps 2-4 on a string of characters (positions are characters)"""
+    p = chars.replace("-", "--").replace(".", "-")
+    if len(p) >= 4 and p[2] == "-" and p[3] == "-":
+        p = "0-" + p + "-0"
+    return p
+
+
+def bytes_steps234(b):
+    p = b.replace(b"-", b"--").replace(b".", b"-")
+    if len(p) >= 4 and p[2:4] == b"--":
+        p = b"0-" + p + b"-0"
+    return p
+
+
+def tok_opt(t):
+    return None if t == "n" else bytes.fromhex(t[1:])
+
+
+def clean_segments(path):
+    segs = path.split("/")
+    return all(s not in ("", ".", "..") for s in segs)
+
+
+def prop_cache(line, impl, model):
+    a = line.split(" ")
+    if impl.startswith("!panic") or impl == "!died":
+        return "implementation panicked/died: " + impl[:200]
+    if impl.startswith("!"):
+        return None  # harness-level marker; shows up as a disagreement
+    ct = bytes.fromhex(a[4][1:])
+    pf = [bytes.fromhex(t[1:]) for t in a[5].split(",")]
+    cf = [tok_opt(t) for t in a[6].split(",")]
+    ou, pre, oa, sha = tok_opt(a[7]), tok_opt(a[8]), tok_opt(a[9]), bytes.fromhex(a[10][1:])
+    scheme, user, host, port, epath, rq, fr = pf
+    must_reject = []
+    if scheme not in (b"http", b"https"):
+        must_reject.append("publisher scheme is not http(s)")
+    if user != b"":
+        must_reject.append("publisher URL has userinfo")
+    if port != b"" and not ((scheme == b"http" and port == b"80") or (scheme == b"https" and port == b"443")):
+        must_reject.append("publisher port is not the scheme default")
+    if host == b"":
+        must_reject.append("publisher host is empty")
+    if cf[5] != b"" or cf[6] != b"":
+        must_reject.append("cache URL has a query or fragment")
+    if ct == b"":
+        must_reject.append("content type is empty")
+    if impl == "err":
+        return None if (must_reject or model == "err") else "a well-formed publisher/cache URL pair was refused"
+    if must_reject:
+        return "CacheURL accepted although " + must_reject[0]
+    f = impl.split(" ")
+    r_scheme, r_user, r_host, r_path, r_q, r_f = f[1], f[2], bytes.fromhex(f[3][1:]), bytes.fromhex(f[4][1:]), f[5], f[6]
+    # domain prefix: a single dot-free label of at most 63 bytes, the one the specification prescribes
+    suffix = b"." + cf[2]
+    h = r_host
+    if cf[3] != b"":
+        if h.startswith(b"[") and h.endswith(b"]:" + cf[3]):   # net.JoinHostPort brackets a host containing ':'
+            h = h[1: -len(cf[3]) - 2]
+        elif h.endswith(b":" + cf[3]):
+            h = h[: -len(cf[3]) - 1]
+        else:
+            return "result host does not carry the cache port"
+    if not h.endswith(suffix):
+        return "result host is not <prefix>.<cache host>"
+    prefix = h[: -len(suffix)]
+    if b"." in prefix or len(prefix) > 63:
+        return "domain prefix %r is not a dot-free label of at most 63 bytes" % prefix
+    fallback = b32lower(sha).encode()
+    if len(fallback) != 52:
+        return None
+    want = None
+    if ou is not None:
+        try:
+            chars = ou.decode("utf-8")
+        except UnicodeDecodeError:
+            chars = None
+        if chars is not None:
+            if spec_steps234(chars).encode("utf-8") != pre:
+                return "SELF-CHECK: model steps 2-4 differ from the character-indexed statement"
+            want = oa if (oa is not None and len(oa) <= 63) else fallback
+    else:
+        want = fallback
+    if want is not None and prefix != want:
+        return "domain prefix is %r, the AMP algorithm (hyphen test on character positions 3-4) gives %r" % (prefix, want)
+    if f[1] != "x" + cf[0].hex() or r_q != "x" + rq.hex() or r_f != "x" + fr.hex():
+        return "scheme/query/fragment of the result are not cache scheme / publisher query / publisher fragment"
+    # shape for clean paths with content type c
+    cp, pp = cf[4].decode("latin1"), epath.decode("latin1")
+    if ct == b"c" and cp.startswith("/") and (cp == "/" or clean_segments(cp.strip("/"))) and pp.startswith("/") and clean_segments(pp[1:]):
+        # (a host name that is "." or ".." is itself a dot segment for path.Join: excluded here, covered by the model)
+        esc_ok = all(chr(c).isalnum() or chr(c) in "-_.~" for c in host) and max(host) < 128 and host not in (b".", b"..")
+        if esc_ok:
+            wantp = cp.rstrip("/") + "/c" + ("/s" if scheme == b"https" else "") + "/" + host.decode() + pp
+            if r_path.decode("latin1") != wantp:
+                return "result path %r is not <cache path>/c[/s]/<host><publisher path> = %r" % (r_path, wantp)
+    return None
+
+
+def key_cache(line, impl, model):
+    a = line.split(" ")
+    ou, pre = tok_opt(a[7]), tok_opt(a[8])
+    if ou is not None and max(ou, default=0) >= 128 and impl.startswith("ok") and model.startswith("ok"):
+        try:
+            chars = ou.decode("utf-8")
+            if bytes_steps234(ou) != spec_steps234(chars).encode("utf-8") and impl.split(" ")[3] != model.split(" ")[3]:
+                return "idn-hyphen-byte-index"
+        except UnicodeDecodeError:
+            pass
+    return "cache-url"
+
+
+LIB_OPS = ("clean", "join", "pesc", "punesc", "h34r", "b32", "utf8", "jhp")
+
+
+def gen_libmodels(ctx):
+    """direct checks of the modelled library helpers (path.Clean/Join, url.PathEscape, []rune, base32, JoinHostPort)"""
+    rng = ctx.rng
+    thorough = ctx.tier == "thorough"
+    lines, kinds = [], []
+
+    def add(l, k):
+        lines.append(AREA + " " + l)
+        kinds.append(k)
+    # every path over {a . /} up to length 7 (8): path.Clean
+    for n in range(0, 9 if thorough else 8):
+        for t in itertools.product(b"a./", repeat=n):
+            add("clean " + hx(bytes(t)), "lib-clean-exhaustive")
+    segs = [b"", b"a", b".", b"..", b"/", b"a/b", b"/a", b"a/", b"../x", b"%2e", b"c", b"s"]
+    for n in range(0, 4):
+        for t in itertools.product(segs, repeat=n):
+            add("join " + (",".join(hx(e) for e in t) or "-"), "lib-join-exhaustive")
+    for c in range(256):
+        add("pesc " + hx(bytes([c, 0x41])), "lib-pathescape")
+    for _ in range(300 if not thorough else 3000):
+        s = bytes(rng.choice(b"%%%%0129afAFgGz/ ") for _ in range(rng.randrange(0, 9)))
+        add("punesc " + hx(s), "lib-pathunescape")
+    # rune positions: valid and invalid UTF-8 around the first four characters
+    pieces = [b"a", b"-", b"\xc3\xa9", b"\xe2\x9a\xa1", b"\xf0\x9f\x98\x8a", b"\xc3", b"\xe2\x9a", b"\xf0\x9f\x98", b"\xff", b"\x80", b"\xc0\x80",
+              b"\xe0\x80\x80", b"\xed\xa0\x80", b"\xf4\x90\x80\x80", b"\xe0\xa0\x80", b"\xed\x9f\xbf", b"\xf4\x8f\xbf\xbf", b"\xf0\x90\x80\x80", b"\xc2\x2d"]
+    for t in itertools.product(pieces, repeat=2):
+        for tail in (b"--", b"-", b"-a", b"a-", b"", b"---"):
+            add("h34r " + hx(b"".join(t) + tail), "lib-runes")
+    for _ in range(500 if not thorough else 5000):
+        s = bytes(rng.choice([0x2d, 0x2d, 0x61, 0xc3, 0xa9, 0xe2, 0x9a, 0xa1, 0xf0, 0x9f, 0x98, 0x8a, 0x80, 0xbf, 0xc2, 0xe0, 0xed, 0xf4, 0xff, rng.randrange(256)])
+                  for _ in range(rng.randrange(0, 8)))
+        add("h34r " + hx(s), "lib-runes-random")
+    for cp in [0, 0x2d, 0x7f, 0x80, 0x7ff, 0x800, 0xd7ff, 0xe000, 0xffff, 0x10000, 0x10ffff, 0xe9, 0x26a1, 0x1f60a]:
+        add("utf8 %d,45,%d" % (cp, cp), "lib-utf8")
+    for n in list(range(0, 12)) + [31, 32, 33]:
+        for a0 in (0, 255, 0x5a, rng.randrange(256)):
+            add("b32 g%d.%d" % (n, a0), "lib-base32")
+    for _ in range(100):
+        add("b32 " + hx(bytes(rng.randrange(256) for _ in range(32))), "lib-base32")
+    for h in (b"a.b", b"::1", b"a.::1", b"", b"a:b"):
+        for p_ in (b"443", b"", b"8080"):
+            add("jhp %s %s" % (hx(h), hx(p_)), "lib-joinhostport")
+    return lines, kinds
+
+
+def prop_lib(line, impl, model):
+    if impl.startswith("!panic") or impl == "!died":
+        return "implementation panicked/died: " + impl[:200]
+    return None
+
+
+def run_cache(ctx):
+    exe = vlib.go_build("./zz_verif/amppath")
+    rng = ctx.rng
+    thorough = ctx.tier == "thorough"
+    ll, lk = gen_libmodels(ctx)
+    ctx.correspond(exe, ll, lk, label="amp-cache-library-models", prop=prop_lib, key_of=lambda *a: "library-model")
+    cases, kinds = [], []
+    # every domain over a small alphabet (ASCII letter, hyphen, dot, 2-byte and 3-byte characters)
+    for n in range(0, 6 if thorough else 5):
+        for t in itertools.product(SMALL_DOMAIN_ALPHA, repeat=n):
+            cases.append(("https://" + "".join(t) + "/amp/client/0AAAAAAAAAAAA/QUJD", "https://cdn.ampproject.org/", "c"))
+            kinds.append("cacheurl-domain-exhaustive-small")
+    for d in ["\u00e9-c.com", "\u00e9a-b.com", "en-us.example.com", "snowflake-broker.torproject.net", "snowflake-broker.azureedge.net",
+              "xn--57hw060o.com", "\u26a1\U0001f60a.com", "b\u00fccher.de", "a" * 63, "a" * 64, ("a" * 30 + ".") * 9 + "com", "xn---", "xn--"]:
+        for cache in ["https://cdn.ampproject.org/", "https://amp.cache:8443/p/"]:
+            cases.append(("https://" + d + "/amp/client/0AAAAAAAAAAAA/QUJD", cache, "c"))
+            kinds.append("cacheurl-named-domains")
+    for _ in range(2500 if not thorough else 25000):
+        cases.append((rand_pub(rng), rand_cache(rng), rand_ct(rng)))
+        kinds.append("cacheurl-random")
+    for _ in range(600 if not thorough else 6000):
+        cases.append(("https://" + rand_domain(rng) + rng.choice(["/", "/amp/client/0AAAAAAAAAAAA/QUJD"]), "https://cdn.ampproject.org/", "c"))
+        kinds.append("cacheurl-random-domain")
+    # phase A: url.Parse accessors, ToUnicode(host), sha256(host) from the real libraries
+    rc, pa, err = vlib.run_impl(exe, ["%s parse %s %s" % (AREA, sx(p), sx(c)) for p, c, _ in cases])
+    if rc != 0 or len(pa) != len(cases):
+        ctx.not_shown("amp-cache: parse phase failed: " + err[-300:])
+        return
+    keep = [i for i, r in enumerate(pa) if not r.startswith("!")]
+    ctx.extra["cacheurl_unparsable_skipped"] = len(cases) - len(keep)
+    # phase B: steps 2-4 of the basic algorithm by the model
+    ous = [pa[i].split(" ")[2] for i in keep]
+    pres = vlib.run_model(["%s pre %s" % (AREA, ou) if ou != "n" else "%s pre x" % AREA for ou in ous])
+    pres = [p if ou != "n" else "n" for p, ou in zip(pres, ous)]
+    # phase C: ToASCII of that
+    rc, oas, err = vlib.run_impl(exe, ["%s toascii %s" % (AREA, p) for p in pres])
+    if rc != 0 or len(oas) != len(keep):
+        ctx.not_shown("amp-cache: toascii phase failed: " + err[-300:])
+        return
+    lines, ks = [], []
+    for j, i in enumerate(keep):
+        p, c, ct = cases[i]
+        pf, cf, ou, sha = pa[i].split(" ")
+        lines.append("%s cacheurl %s %s %s %s %s %s %s %s %s" % (AREA, sx(p), sx(c), sx(ct), pf, cf, ou, pres[j], oas[j], sha))
+        ks.append(kinds[i])
+    ctx.correspond(exe, lines, ks, label="amp-cache-url", prop=prop_cache, key_of=key_cache)
+
+
 def run(ctx):
     ctx.assumptions += ["models = coq/Model/{B64Url,AmpPath}.v (hand written); tie = correspondence on generated cases"]
+    ctx.assumptions += ["idna.ToUnicode / idna.ToASCII / sha256 / url.Parse are library boundaries: their outputs are supplied per case by the Go driver "
+                        "(which re-verifies them against the real libraries on the final case line)"]
     run_path(ctx)
+    run_cache(ctx)
 
 
 def replay(ctx, doc):
@@ -188,7 +471,8 @@ def replay(ctx, doc):
         m = vlib.run_model([case])[0]
         rc, r, err = vlib.run_impl(exe, [case])
         r = r[0] if r else "!died"
-        p = prop(case, r, m)
+        op = case.split(" ")[1]
+        p = (prop_cache if op.startswith("cacheurl") else prop_lib if op in LIB_OPS else prop)(case, r, m)
         print("case: %s\n model: %s\n impl:  %s\n property: %s" % (case[:300], m[:300], r[:300], p or "holds"))
         bad += 1 if p else 0
     return 1 if bad else 0
